@@ -54,7 +54,7 @@ CFG = {
                   "compiled code on ALL inputs) is decided by observation on the explored inputs only - it is not a theorem. Not covered: wasm32 "
                   "targets (usize = 32 bits, JsError paths), recursion deeper than the generated nesting (256), allocation behaviour other "
                   "than on this machine, bech32/hex/serde_json/num-bigint internals (external crates, observed only). No axioms.",
-    "theorems": ["C02_model_total", "C02_ledger_total", "C02_reserialise_wf", "C02_reserialise_full", "C02_reserialise_after_decode_wf",
+    "theorems": ["C02_model_total", "C02_ledger_total", "C02_reserialise_wf", "C02_reserialise_full", "C02_reserialise_after_decode_wf", "C02_lenient_covers_strict", "C02_decoder_consumes",
                  "C02_address_total", "C02_byron_total", "C02_third_element_total", "C02_bounded_bytes_total", "C02_from_hex_total",
                  "C02_hash_total", "C02_xprv_total", "C02_nint_writer_total", "C02_json_number_total", "C02_emip3_total",
                  "C02_witness_special_total", "C02_native_script_schema_total", "C02_legacy_panics_refuted", "C02_huge_length_refuted",
